@@ -193,6 +193,12 @@ DLLEXPORT int GET_NAME(tj3Decompress, BITS_IN_JSAMPLE)
   this->dinfo.out_color_space = pf2cs[pixelFormat];
 #if BITS_IN_JSAMPLE != 16
   scaledWidth = TJSCALED(dinfo->image_width, this->scalingFactor);
+  /* tj3SetCroppingRegion() checked the region against the image and scaling
+     factor that were current at the time.  It must also fit this image. */
+  if (this->croppingRegion.x + this->croppingRegion.w > scaledWidth ||
+      this->croppingRegion.y + this->croppingRegion.h >
+      TJSCALED(dinfo->image_height, this->scalingFactor))
+    THROW("The cropping region exceeds the scaled image dimensions");
 #endif
   dinfo->do_fancy_upsampling = !this->fastUpsample;
   this->dinfo.dct_method = this->fastDCT ? JDCT_FASTEST : JDCT_ISLOW;
